@@ -4,8 +4,10 @@
    SemConnectWrappers.v, SemBlock.v.  Well-formedness of the result: Proofs/WFConnect*.v (C02).
 
    Notation.  For connect_circuit base other tc oc right name ap = Ok r:
-     mapping  = build_mapping oc tc []   (the Python dict: mapping[oc_i] = tc_i; for a repeated
-                                          key the LAST pair wins)
+     mapping  = build_mapping oc tc []   (the Python dict: mapping[oc_i] = tc_i; whenever the call
+                                          returns, oc has no repetitions - C10_connectors_distinct -
+                                          so mapping is exactly the list of connector pairs:
+                                          C10_no_pair_dropped)
      conn_ren tc oc name ap l = mapping[l] if l is a key of mapping, else prefix ++ l,
                                 prefix = name ++ "@" if name <> "" and ap, else ""
      free_of xs ls            = the elements of ls that are not in xs, in order.
@@ -23,7 +25,7 @@ Require Import Cirbo.Model.Base Cirbo.Model.Gate Cirbo.Model.Circuit Cirbo.Model
         Cirbo.Model.Connect Cirbo.Model.History Cirbo.Model.WF.
 Require Import Cirbo.Proofs.WFEmplace Cirbo.Proofs.WFConnect1 Cirbo.Proofs.WFConnect2 Cirbo.Proofs.WFStep Cirbo.Proofs.WFSound Cirbo.Proofs.SemConnectStruct
         Cirbo.Proofs.SemConnectLeft Cirbo.Proofs.SemConnectRight Cirbo.Proofs.SemConnectWrappers
-        Cirbo.Proofs.SemBlock Cirbo.Proofs.SemConnectTotal Cirbo.Proofs.EvalEntry Cirbo.Proofs.ArityPreserve.
+        Cirbo.Proofs.SemBlock Cirbo.Proofs.SemConnectTotal Cirbo.Proofs.EvalEntry Cirbo.Proofs.ArityPreserve Cirbo.Proofs.ConnectPairs.
 
 (* ---- the result is well formed (from C02) ---- *)
 Theorem C10_result_wf : forall base other tc oc right name ap r,
@@ -109,6 +111,21 @@ Theorem C10_mapping_pairs : forall oc tc o t,
   (dget (build_mapping oc tc []) o = Some t <->
    exists i, nth_error oc i = Some o /\ nth_error tc i = Some t).
 Proof. exact bm_nil_nth_iff. Qed.
+
+(* whenever connect_circuit returns, in either direction: the gates of `other` in oc are pairwise distinct,
+   in a right connection the base inputs in tc too, and the lists are equally long; hence every connector
+   pair (oc_i, tc_i) is in the map - no pair is dropped.  (Before the repair D40 a right connection with a
+   repeated gate of `other` silently kept only the last pair.) *)
+Theorem C10_connectors_distinct : forall base other tc oc right name ap r,
+  connect_circuit base other tc oc right name ap = Ok r ->
+  NoDup oc /\ (right = true -> NoDup tc) /\ length tc = length oc.
+Proof. exact connect_connectors_distinct. Qed.
+
+Theorem C10_no_pair_dropped : forall base other tc oc right name ap r,
+  connect_circuit base other tc oc right name ap = Ok r ->
+  forall o t, dget (build_mapping oc tc []) o = Some t <->
+              exists i, nth_error oc i = Some o /\ nth_error tc i = Some t.
+Proof. exact connect_mapping_is_pairs. Qed.
 
 Theorem C10_mapping_keys : forall oc tc x,
   length tc = length oc -> (dget (build_mapping oc tc []) x = None <-> ~ In x oc).
